@@ -365,6 +365,19 @@ func checkProfile(c *vk.Ctx, sigma []enum.Kind, s1, s2 enum.Shape, v int, cfgs [
 		} else {
 			c.Count("unparsed/tree", 1)
 		}
+		// call_tree is for the graph renderings (dot, callgrind): the text forms show one entry per function
+		// with or without it, so tree and peek print the same
+		for _, form := range []string{"tree", "peek=.*"} {
+			c.Eval()
+			plain := drive.Report(data, []string{"p"}, append([]string{form}, fl...)...)
+			withCT := drive.Report(data, []string{"p"}, append([]string{form, "call_tree"}, fl...)...)
+			cs.Out = strings.SplitN(form, "=", 2)[0] + ",call_tree"
+			if withCT.Panic != nil {
+				c.Violationf("panic/"+cs.Out, cs, "panic: %v\n%s", withCT.Panic, withCT.Stack)
+			} else if plain.Err == nil && withCT.Err == nil && string(plain.Out) != string(withCT.Out) {
+				c.Violationf(cs.Out+"/differs-from-plain", cs, "with call_tree:\n%s\nwithout:\n%s", withCT.Out, plain.Out)
+			}
+		}
 		checkOthers(c, cs, a, cfg, ref, data, fl)
 		checkCallgrindAndWeb(c, cs, a, cfg, ref, data, webH)
 		if nontrivial {
